@@ -4,7 +4,7 @@ import "golang.org/x/tools/go/ssa"
 
 func init() {
 	register("C08", &propInfo{
-		Explanation: "UNIT: every pruning comparison in the accelerated queries (bvh.go, collisions.go, sdf.go, coord_tree.go; 2D and 3D) compares like with like (squared distance with squared bound, length with length). CS: every hierarchy builder cuts its input into a prefix and a suffix at the same index (no object dropped or duplicated by the split), parallel sequences at the same index. AM: nearest-hit selection over parts keeps the smaller ray parameter. ALLCHILD: conversions of a bounding hierarchy visit every child of every node.",
+		Explanation: "NILRECV: every exported method of a pointer type whose siblings treat a nil receiver as the empty value (the point trees) dereferences its receiver, directly or through helpers, only after a nil test. AXISCMP: interval tests between two different coordinates compare the same axis on both sides. UNIT: every pruning comparison in the accelerated queries (bvh.go, collisions.go, sdf.go, coord_tree.go; 2D and 3D) compares like with like (squared distance with squared bound, length with length). CS: every hierarchy builder cuts its input into a prefix and a suffix at the same index (no object dropped or duplicated by the split), parallel sequences at the same index. AM: nearest-hit selection over parts keeps the smaller ray parameter. ALLCHILD: conversions of a bounding hierarchy visit every child of every node.",
 		Trusted:     append([]string{"go/ssa"}, unitTrusted...),
 		Fixtures:    []string{"u", "s", "a3"},
 		Run: func(c *Ctx) {
@@ -35,8 +35,15 @@ func init() {
 			c.floor("ALLCHILD", 3)
 			c.runAxisCompare("AXISCMP", append(c.libPkgs()[:4:4], c.fixturePkg("u")), ff)
 			c.floor("AXISCMP", 0)
+			c.runNilReceiver("NILRECV", append(c.libPkgs()[:4:4], c.fixturePkg("u")), nil)
+			c.floor("NILRECV", 0)
 		},
 		SelfTest: []Mutation{
+			{Name: "k-nearest search of the empty tree dereferences nil", File: "model3d/coord_tree.go",
+				Old: "func (c *CoordTree) knn(p Coord3D, res *knnResults) {\n\tif c == nil {\n\t\treturn\n\t}\n\tdist := p.SquaredDist(c.Coord)", New: "func (c *CoordTree) knn(p Coord3D, res *knnResults) {\n\tif c.LessThan == nil && c.GreaterEqual == nil && res.Max < 0 {\n\t\treturn\n\t}\n\tdist := p.SquaredDist(c.Coord)",
+				More: [][2]string{{"\t\tc.LessThan.knn(p, res)\n\t} else {\n\t\tc.GreaterEqual.knn(p, res)\n\t}\n\t// Attempt", "\t\tif c.LessThan != nil {\n\t\t\tc.LessThan.knn(p, res)\n\t\t}\n\t} else if c.GreaterEqual != nil {\n\t\tc.GreaterEqual.knn(p, res)\n\t}\n\t// Attempt"},
+					{"\tif planeDist > 0 && planeDist*planeDist < res.MaxDist() {\n\t\tc.GreaterEqual.knn(p, res)\n\t} else if planeDist <= 0 && planeDist*planeDist < res.MaxDist() {\n\t\tc.LessThan.knn(p, res)\n\t}", "\tif planeDist > 0 && planeDist*planeDist < res.MaxDist() && c.GreaterEqual != nil {\n\t\tc.GreaterEqual.knn(p, res)\n\t} else if planeDist <= 0 && planeDist*planeDist < res.MaxDist() && c.LessThan != nil {\n\t\tc.LessThan.knn(p, res)\n\t}"}},
+				Rule: "NILRECV", Expect: "KNN"},
 			{Name: "triangle query prunes a node by comparing z with y", File: "model3d/collisions.go",
 				Old: "if min.X > max.X || min.Y > max.Y || min.Z > max.Z {\n\t\treturn nil\n\t}\n\n\tvar res []Segment", New: "if min.X > max.X || min.Y > max.Y || min.Z > max.Y {\n\t\treturn nil\n\t}\n\n\tvar res []Segment", Rule: "AXISCMP", Expect: "TriangleCollisions"},
 			{Name: "point tree compares the plane distance with the squared bound", File: "model3d/coord_tree.go",
